@@ -473,8 +473,8 @@ fn value_permitted(val: &CharacterData, spec: &CharacterDataSpec, v: AutosarVers
         CharacterData::String(s) => Val::Str(s.clone()),
         other => Val::from_cdata(other),
     };
-    if let (CharacterData::String(s), CharacterDataSpec::Pattern { check_fn, max_length, .. }) = (val, spec) {
-        return check_fn(s.as_bytes()) && max_length.is_none_or(|m| s.len() <= m);
+    if let (CharacterData::String(s), CharacterDataSpec::Pattern { check_fn, max_length, regex }) = (val, spec) {
+        return crate::common::specvalid::pattern_accepts(regex, *check_fn, s.as_bytes()) && max_length.is_none_or(|m| s.len() <= m);
     }
     if let (CharacterData::String(s), CharacterDataSpec::String { max_length, .. }) = (val, spec) {
         return max_length.is_none_or(|m| s.len() <= m);
@@ -561,7 +561,7 @@ fn explore_values(ctx: &Ctx, cnt: &Cnt, r: &Reach, seen_attr: &std::sync::Mutex<
                 && aspec.as_ref().is_some_and(|a| {
                     let mut out = vec![];
                     match a.spec {
-                        CharacterDataSpec::Pattern { check_fn, max_length, .. } => check_fn(text.as_bytes()) && max_length.is_none_or(|m| text.len() <= m),
+                        CharacterDataSpec::Pattern { check_fn, max_length, regex } => crate::common::specvalid::pattern_accepts(regex, *check_fn, text.as_bytes()) && max_length.is_none_or(|m| text.len() <= m),
                         CharacterDataSpec::String { max_length, .. } => max_length.is_none_or(|m| text.len() <= m),
                         CharacterDataSpec::Enum { items } => {
                             text.parse::<EnumItem>().ok().is_some_and(|it| items.iter().any(|(i, mask)| *i == it && v.compatible(*mask)))
